@@ -71,6 +71,8 @@ class Collector:
         self.sampled_satisfying = 0
         self.entail_sampled = 0
         self.hull_by_support = 0
+        self.hull_wide = 0
+        self.max_width = 0
         self.cross_checked = 0
         self.oracle_mismatch = 0
         self.mismatch_samples = []
@@ -97,6 +99,11 @@ class Collector:
             self.entail_sampled += 1
         if facts.get("hull_by_support"):
             self.hull_by_support += 1
+        if facts.get("hull_wide"):
+            self.hull_wide += 1
+            w = max(b - a for a, b in box)
+            if w > self.max_width:
+                self.max_width = w
         if facts.get("oracles_cross_checked"):
             self.cross_checked += 1
         if facts.get("oracle_mismatch"):
@@ -134,7 +141,8 @@ class Collector:
             "exceptions": self.exceptions, "max_lines": self.max_lines, "mode": MODE,
             "sampled_calls": self.sampled_calls, "sampled_tuples": self.sampled_tuples,
             "sampled_satisfying": self.sampled_satisfying, "entail_sampled": self.entail_sampled,
-            "max_arity": self.max_arity, "hull_by_support": self.hull_by_support, "cross_checked": self.cross_checked,
+            "max_arity": self.max_arity, "hull_by_support": self.hull_by_support, "hull_wide": self.hull_wide,
+            "max_width": self.max_width, "cross_checked": self.cross_checked,
             "oracle_mismatch": self.oracle_mismatch, "mismatch_samples": self.mismatch_samples,
         }
 
@@ -285,6 +293,8 @@ def run_calls(task):
             for i in range(task["count"]):
                 name = names[i % len(names)]
                 box, params = gen.gen_call(rnd, name, opts)
+                if opts.get("stretch"):
+                    box, params = gen.stretch_call(rnd, name, box, params)
                 if task.get("points") and rnd.random() < task["points"]:
                     box = [[v, v] for v in (rnd.randint(a, b) for a, b in box)]
                 elif opts.get("almost_ground"):
